@@ -41,6 +41,17 @@ class P:
                 line = "imdecode %s %s" % (proto, hist)
                 self.as_hist[line] = ("ipfixh " if proto == "ipfix" else "nf9h ") + hist
                 out.append(line)
+        # ... and with RFC 5610 type-information records in the traffic (an exporter describing IANA and enterprise elements, also with
+        # the enterprise bit set in the id): what templates mean afterwards is what the tables say, on both load paths
+        from props import c03
+        self.typeinfo = {}
+        g = Gen("ipfix", model, rng)
+        for _ in range(3):
+            l3 = c03.PROP.gen_typeinfo(g, rng)
+            line = "imdecode ipfix " + l3.split(" ", 1)[1]
+            self.as_hist[line] = l3
+            self.typeinfo[line] = c03.PROP.expect[l3]
+            out.append(line)
         return out
 
     def post(self, lines, impl, model):
@@ -67,6 +78,15 @@ class P:
             if r2 != r0:
                 return ("the same %s template and record decode differently with the built-in model after the shipped file was loaded once in "
                         "the process: before %r, after %r" % (proto, data(r0)[:300], data(r2)[:300]))
+            exp = getattr(self, "typeinfo", {}).get(line)
+            if exp is not None:
+                from props.flowprop import parse_dgram, SEP
+                for which, r in (("built-in", r0), ("shipped file installed", r1), ("built-in again", r2)):
+                    got = [parse_dgram(o) for o in r.split(SEP)]
+                    for k, (e, g_) in enumerate(zip(exp, got)):
+                        if g_.get("kind") != "MSG" or g_["recs"] != e["recs"]:
+                            return ("after type-information records (RFC 5610) of one exporter, datagram %d of the history is not decoded as the information model "
+                                    "(%s) says: want %s got %s" % (k, which, e["recs"][:2], g_.get("recs", g_.get("kind"))[:2] if isinstance(g_.get("recs"), list) else g_.get("kind")))
             if r0 != model:
                 return "model/implementation disagreement: impl %r model %r" % (data(r0)[:300], data(model)[:300])
             return None
